@@ -33,7 +33,7 @@ import (
 // the Go race detector evaluated on the simulated interleaving (race build).
 
 var concFaults = []string{"preempt", "lock-contended", "curve-first-use", "close-during-write", "rotation-during-handshake", "pct-schedule", "dense-preemption", "transport-write-blocks", "peer-transport-abort"}
-var concReach = []string{"block-shared", "pkg-sign", "pkg-encrypt", "pkg-hash", "pkg-sm4", "pkg-parse", "pkg-pkcs7-ber", "pkg-verify-chain", "pkg-sm4-modes", "pkg-key-codec", "pkg-create-cert", "pkg-pkcs12", "pkg-key-exchange", "cache-linearizable", "cache-eviction", "pool-verify", "pool-verify-rejecting", "conn-linearizable", "conn-close-raced", "write-after-close-failed", "config-handshakes", "config-rotated", "config-resumed", "config-followup-resumption-owed", "config-rotation-inside-ticket-code", "config-client-shared", "config-vhost-handshakes", "conn-multi-record-writes", "conn-write-inside-last-flight", "conn-quiet-peer", "conn-concurrent-ekm", "conn-hello-request", "conn-renegotiation-started", "conn-deadline-interrupt", "tasks>=8", "tasks>=16", "porcupine-unknown"}
+var concReach = []string{"block-shared", "pkg-sign", "pkg-encrypt", "pkg-hash", "pkg-sm4", "pkg-parse", "pkg-pkcs7-ber", "pkg-verify-chain", "pkg-sm4-modes", "pkg-key-codec", "pkg-create-cert", "pkg-pkcs12", "pkg-key-exchange", "cache-linearizable", "cache-eviction", "pool-verify", "pool-verify-rejecting", "conn-linearizable", "conn-close-raced", "write-after-close-failed", "config-handshakes", "config-rotated", "config-resumed", "config-followup-resumption-owed", "config-rotation-inside-ticket-code", "config-client-shared", "config-vhost-handshakes", "config-shared-by-dials", "conn-multi-record-writes", "conn-write-inside-last-flight", "conn-quiet-peer", "conn-concurrent-ekm", "conn-hello-request", "conn-renegotiation-started", "conn-deadline-interrupt", "tasks>=8", "tasks>=16", "porcupine-unknown"}
 
 func init() {
 	for i, p := range []struct {
